@@ -157,12 +157,13 @@ type RaceReport struct {
 
 // RunRaceBinary executes the race build of orbcheck on the race workload and parses its logs.
 func RunRaceBinary(seed int64, thorough bool) RaceReport {
-	bin := "/verif/bin/orbcheck-race"
+	bin := filepath.Join(VerifDir(), "bin", "orbcheck-race")
 	rep := RaceReport{Counts: map[string]int64{}}
 	if _, err := os.Stat(bin); err != nil {
 		return rep
 	}
-	dir, err := os.MkdirTemp("/verif/.work", "race-")
+	os.MkdirAll(filepath.Join(VerifDir(), ".work"), 0o755)
+	dir, err := os.MkdirTemp(filepath.Join(VerifDir(), ".work"), "race-")
 	if err != nil {
 		return rep
 	}
@@ -259,4 +260,12 @@ func firstN(s []string, n int) []string {
 		return s[:n]
 	}
 	return s
+}
+
+// VerifDir is the framework directory (exported by bin/check as VERIF_DIR).
+func VerifDir() string {
+	if d := os.Getenv("VERIF_DIR"); d != "" {
+		return d
+	}
+	return "/verif"
 }
